@@ -88,27 +88,38 @@ theorem createDir_full_refused (c : Cfg) (v nParent : Nat) (name : Bytes) (s : S
       rw [hr]
       exact Post.pure _ _ _ _ ⟨by decide, ⟨by rw [hq2.1, hq1.1], by rw [hq2.2.1, hq1.2.1], by rw [hq2.2.2, hq1.2.2]⟩⟩
 
-/-- **`adfCreateFile` on a full volume**: the same for file creation -/
-theorem createFile_full_refused (c : Cfg) (v nParent : Nat) (name : Bytes) (s : St) (hfull : VolFull c v s.mem) :
-    Post AnyFault c (createFile v nParent name) s (fun r s' => r.1 ≠ rcOK ∧ Untouched s s') := by
-  unfold createFile
+theorem createFileLink_full_refused (c : Cfg) (v nParent : Nat) (name : Bytes) (s : St) (hfull : VolFull c v s.mem) :
+    Post AnyFault c (createFileLink v nParent name) s (fun r s' => r.1 ≠ rcOK ∧ r.2.2 = none ∧ Untouched s s') := by
+  unfold createFileLink
   apply Post.bind; apply Post.getVolCfg
   apply Post.bind; apply readEntryBlock_full
   intro rc parent s1 hm _ hd hw _
   have hq1 : Untouched s s1 := ⟨hd, hm, hw⟩
   simp only
   by_cases hrc : rc ≠ rcOK
-  · rw [if_pos hrc]; exact Post.pure _ _ _ _ ⟨hrc, hq1⟩
+  · rw [if_pos hrc]; exact Post.pure _ _ _ _ ⟨hrc, rfl, hq1⟩
   · rw [if_neg hrc]
     apply Post.bind; apply hasFreeBlocks_pure
     intro hb
     split
-    · exact Post.pure _ _ _ _ ⟨by decide, hq1⟩
+    · exact Post.pure _ _ _ _ ⟨by decide, rfl, hq1⟩
     · apply Post.bind
       refine Post.mono _ _ _ _ _ (createEntry_full_refused c v parent name s1 (by rw [hq1.2.1]; exact hfull)) ?_
       rintro r s2 ⟨hr, hq2⟩
       rw [hr]
-      exact Post.pure _ _ _ _ ⟨by decide, ⟨by rw [hq2.1, hq1.1], by rw [hq2.2.1, hq1.2.1], by rw [hq2.2.2, hq1.2.2]⟩⟩
+      exact Post.pure _ _ _ _ ⟨by decide, rfl, ⟨by rw [hq2.1, hq1.1], by rw [hq2.2.1, hq1.2.1], by rw [hq2.2.2, hq1.2.2]⟩⟩
+
+/-- **`adfCreateFile` on a full volume**: the same for file creation -/
+theorem createFile_full_refused (c : Cfg) (v nParent : Nat) (name : Bytes) (s : St) (hfull : VolFull c v s.mem) :
+    Post AnyFault c (createFile v nParent name) s (fun r s' => r.1 ≠ rcOK ∧ Untouched s s') := by
+  unfold createFile
+  apply Post.bind; apply Post.getVolCfg
+  apply Post.bind
+  refine Post.mono _ _ _ _ _ (createFileLink_full_refused c v nParent name s hfull) ?_
+  rintro ⟨rc, fhdr, cont⟩ s1 ⟨hrc, hnone, hq⟩
+  simp only at hrc hnone
+  subst hnone
+  exact Post.pure _ _ _ _ ⟨hrc, hq⟩
 
 theorem readFileExtBlock_untouched {F : Fault → Prop} (c : Cfg) (v n : Nat) (s0 s : St) (hq : Untouched s0 s) (Q : RC × Blk → St → Prop)
     (h : ∀ r s', Untouched s0 s' → Q r s') : Post F c (readFileExtBlock v n) s Q := by
